@@ -4,7 +4,7 @@ from props.common import *
 META = {
     'level': 'model_checking',
     'engines': 'E2: cbmc symex of the real pdgssv -> SMT-LIB (--fpa) -> fp2alg Real -> z3 5.1',
-    'bounds': {'n': '1..3', 'nrhs': '1..2', 'ldb': 'n..n+1', 'panel w': '1..3', 'relax': '1..3', 'maxsuper': '1..3',
+    'bounds': {'larger shapes': 'n=5 (thorough 4..6): dense, banded, arrowhead and lower+superdiagonal patterns, 3 pivot orders, supernodes up to 6 columns, 1-D and 2-D blocking, with all entries pinned to fixed generic values except three symbolic ones (first column L part, last two pivots)', 'n': '1..3', 'nrhs': '1..2', 'ldb': 'n..n+1', 'panel w': '1..3', 'relax': '1..3', 'maxsuper': '1..3',
                'nprocs': '1..3 (workers run one after the other)', 'patterns': 'all structurally non-singular 0/1 patterns',
                'pivot orders': 'all n! preference orders (forced-pivot stub)', 'values': 'all reals (exact arithmetic)'},
     'outside': ['IEEE rounding (gamma(3n) bound)', 'n > 3', 'complex arithmetic', 'true thread interleavings (C03/C04)',
@@ -19,7 +19,7 @@ META = {
 }
 
 def plan(tier, seed):
-    return full_plan('C01', tier, seed)
+    return full_plan('C01', tier, seed) + big_plan('C01', tier, seed)
 
 def REPRESENTATIVE(tier):
     return [full_query('C01', 3, 0x1ff, (0, 1, 2), (0, 1, 2), CONFIGS[0])]
